@@ -109,8 +109,8 @@ func (c *Ctx) absJoinRule(reach []*core.FuncInfo) {
 				"a reference is joined onto the directory of its base without "+strings.Join(missing, " and without ")+" having been established: an absolute $ref (file-system path, no scheme) found in an imported document is rebased as if it were relative, and resolving the result fails")
 		}
 	}
-	if n < 3 {
-		c.S.Undecided("C04", "PIPE-ABSJOIN", "floor", "-", fmt.Sprintf("only %d joins onto a base directory found in the normalisers (confirmed by hand: 3+)", n))
+	if n < 1 {
+		c.S.Undecided("C04", "PIPE-ABSJOIN", "floor", "-", "no join onto a base directory found in the normalisers (three on the pinned tree)")
 	}
 }
 
@@ -354,7 +354,7 @@ func (c *Ctx) reinlineRule(reach []*core.FuncInfo) {
 		}
 	}
 	if n < 1 {
-		c.S.Undecided("C03", "GUARD-REINLINE", "floor", "-", "no flag-returning phase writes a schema back inline (expected: stripOAIGenForRef)")
+		c.S.Note("GUARD-REINLINE: no flag-returning phase writes a schema back inline (one on the pinned tree: stripOAIGenForRef)")
 	}
 }
 
@@ -378,11 +378,15 @@ func (c *Ctx) prefixSepRule(reach []*core.FuncInfo) {
 				if cd.Kind != core.CondBool || cd.Neg {
 					continue
 				}
-				if hc, ok := core.Unparen(cd.Expr).(*ast.CallExpr); ok && len(hc.Args) == 2 {
-					if hcal := c.P.CalleeAny(fi, hc); hcal != nil && hcal.FullName() == "strings.HasPrefix" && sameExpr(hc.Args[0], call.Args[0]) {
-						test = hc
+				// the test itself, or an operand of a disjunction (x == p || strings.HasPrefix(x, p+"/"))
+				ast.Inspect(cd.Expr, func(m ast.Node) bool {
+					if hc, ok := m.(*ast.CallExpr); ok && len(hc.Args) == 2 {
+						if hcal := c.P.CalleeAny(fi, hc); hcal != nil && hcal.FullName() == "strings.HasPrefix" && sameExpr(hc.Args[0], call.Args[0]) {
+							test = hc
+						}
 					}
-				}
+					return true
+				})
 			}
 			// switch { case strings.HasPrefix(x, p): … }
 			if test == nil {
@@ -437,7 +441,7 @@ func (c *Ctx) prefixSepRule(reach []*core.FuncInfo) {
 		}
 	}
 	if n < 1 {
-		c.S.Undecided("C04", "ENC-PREFIXSEP", "floor", "-", "no prefix-test-then-trim rewrite of pointers found (expected: the parents fix-up of stripOAIGenForRef)")
+		c.S.Note("ENC-PREFIXSEP: no prefix-test-then-trim rewrite of pointers found (one on the pinned tree: the parents fix-up of stripOAIGenForRef); the rule is vacuous for other ways of writing it")
 	}
 }
 
@@ -1258,6 +1262,7 @@ func (c *Ctx) selfInline(reach []*core.FuncInfo) {
 				}
 				n++
 				guarded := false
+				cinfo := c.info(caller)
 				for _, cd := range c.conds(caller, call) {
 					if cd.Kind != core.CondBool || !cd.Neg {
 						continue
@@ -1265,6 +1270,29 @@ func (c *Ctx) selfInline(reach []*core.FuncInfo) {
 					if tc, ok := core.Unparen(cd.Expr).(*ast.CallExpr); ok {
 						if g := c.P.StaticCallee(caller, tc); g != nil && isSelfTest(c.P.Funcs[g]) {
 							guarded = true
+						}
+					}
+					// a local flag raised by the same test written in line:
+					//   for _, p := range parents { if strings.HasPrefix(p, path+"/") { self = true } }
+					if fo := core.ObjOf(cinfo, cd.Expr); fo != nil && core.IsBool(fo.Type()) {
+						for _, d := range c.P.Locals(caller).Defs[fo] {
+							if d.Kind != core.DefAssign || d.Node == nil {
+								continue
+							}
+							if tv, isC := cinfo.Types[d.Expr]; !isC || tv.Value == nil || tv.Value.String() != "true" {
+								continue
+							}
+							for _, dc := range c.conds(caller, d.Node) {
+								if hc, ok := core.Unparen(dc.Expr).(*ast.CallExpr); ok && dc.Kind == core.CondBool && !dc.Neg && len(hc.Args) == 2 {
+									if hcal := c.P.CalleeAny(caller, hc); hcal != nil && hcal.FullName() == "strings.HasPrefix" {
+										if be, isB := core.Unparen(hc.Args[1]).(*ast.BinaryExpr); isB && be.Op == token.ADD {
+											if sv, isC := core.ConstString(cinfo, be.Y); isC && sv == "/" {
+												guarded = true
+											}
+										}
+									}
+								}
+							}
 						}
 					}
 				}
